@@ -45,6 +45,13 @@ func c06Log(r *rand.Rand, dates []gen.Date, n int) gen.Log {
 	var log gen.Log
 	for i := 0; i < n; i++ {
 		day := gen.Day{Date: dates[r.Intn(len(dates))]}
+		if r.Intn(7) == 0 {
+			// a day with nothing under its heading, the heading with or without its colon: a day all the same,
+			// wherever in the file it stands
+			day.NoColon = r.Intn(2) == 0
+			log = append(log, day)
+			continue
+		}
 		for j := 0; j <= r.Intn(3); j++ {
 			day.Ents = append(day.Ents, gen.Ent{Name: foods[r.Intn(len(foods))], Val: gen.EQty(r)})
 		}
